@@ -565,8 +565,9 @@ class Model:
         if values is None:
             return None
 
-        # Cast it to an array of floats, in Fortran order.
-        values = np.asfortranarray(values, dtype=np.float64)
+        # Cast it to an array of floats, in Fortran order (always a copy, the
+        # model does not share its parameters with the provided arrays).
+        values = np.array(values, dtype=np.float64, order='F')
 
         # If 1D array of self.size, reshape it.
         if values.size == self.size:
